@@ -328,10 +328,12 @@ def _vjob(job):
         nodes, par = R.project(doc)
         doc2, _ = R.parse_docutils(text, ov, transforms=True)
         ids = R.idinfo(doc2)
-        n2, p2 = R.project(doc2)
+        n2, p2 = R.project(doc2, messages=True)
+        nw, pw = R.project(doc, messages=True)
     except Exception as e:  # noqa: BLE001
         return {"id": tid, "error": f"{type(e).__name__}: {e}"}
     return {"id": tid, "ev": [] if c03only else ev, "c03only": c03only, "obs": {"nodes": nodes, "par": par},
+            "obsw": {"nodes": nw, "par": pw},
             "obs2": {"nodes": n2, "par": p2}, "ids": ids, "dups": R.dup_nodes(doc) + R.dup_nodes(doc2)}
 
 
